@@ -11,6 +11,8 @@ ALLSRC = ['Numerics.cpp', 'Special_Functions.cpp', 'Utilities.cpp', 'Linear_Alge
 
 def ob(name, status, backend='EA', solver_s=0.0, detail='', model=None, key=None, sample=None, solver='z3'):
     """status: discharged | undecided | candidate | broken"""
+    if isinstance(model, dict):
+        model = {k: (str(v) if llsym.is_sym(v) else [str(x) if llsym.is_sym(x) else x for x in v] if isinstance(v, (list, tuple)) else v) for k, v in model.items()}
     return {'name': name, 'status': status, 'backend': backend, 'solver_s': round(solver_s, 3), 'detail': detail, 'model': model, 'key': key or name, 'sample': sample, 'solver': solver}
 
 def model_value(m, t):
@@ -251,7 +253,7 @@ def main(argv):
     for o in violations:
         if o['key'] in seen: continue
         seen.add(o['key']); n = sum(1 for v in violations if v['key'] == o['key'])
-        print('  violated: key=%s (%d obligations) first=%s model=%s replay: %s' % (o['key'], n, o['name'], json.dumps(o['model'])[:400], str(o.get('replay'))[:400]))
+        print('  violated: key=%s (%d obligations) first=%s model=%s replay: %s' % (o['key'], n, o['name'], json.dumps(o['model'], default=str)[:400], str(o.get('replay'))[:400]))
         print('VIOLATION property=%s replay=%s' % (pid, o['replay_path']))
     if violations: return 1
     if brk: return 2
